@@ -84,7 +84,6 @@ Proof. intros n. vm_compute. discriminate. Qed.
 
 Section Prefix.
   Variables (title count l0 : bytes) (rest : list bytes) (L : nat).
-  Hypothesis Htitle : title <> [].
   Hypothesis Htnl : no_nl title.
   Hypothesis Hcnl : no_nl count.
   Let lines := l0 :: rest.
@@ -212,7 +211,7 @@ Lemma byte_prefix_core c w d vel recs : run_ok c w d vel recs ->
   forall k, k <= length (file_c c w d recs) -> rejected (read_gro (firstn k (file_c c w d recs))).
 Proof.
   intros H Hlim k Hk.
-  destruct (title_of_ok c (ro_title _ _ _ _ _ H)) as [Hne Hnl].
+  pose proof (title_of_ok c (ro_title _ _ _ _ _ H)) as Hnl.
   destruct (count1_parses c w d vel recs H) as [Hc Hcnl].
   pose proof (lines_good c w d vel recs H recs (ro_recs _ _ _ _ _ H)) as Hl.
   assert (Hex2 : exists r0 rest, recs = r0 :: rest).
@@ -226,7 +225,7 @@ Proof.
   assert (HN : length (line_of w d r0 :: lines_of w d rest) = length recs).
   { rewrite <- El. unfold lines_of. apply map_length. }
   apply (prefix_rejected (title_of c) (count1 c (length recs)) (line_of w d r0) (lines_of w d rest)
-           (line_len w vel) Hne Hnl Hcnl).
+           (line_len w vel) Hnl Hcnl).
   - rewrite HN. exact Hc.
   - exact Hl.
   - exact Hlim.
@@ -280,7 +279,7 @@ Proof.
       + rewrite He in Hr. discriminate.
     - rewrite firstn_app_ge in Hr by lia.
       set (tl := firstn (k - length (file_c c w d recs)) (boxline ++ [NL])) in *.
-      destruct (title_of_ok c (ro_title _ _ _ _ _ H)) as [Hne Hnl].
+      pose proof (title_of_ok c (ro_title _ _ _ _ _ H)) as Hnl.
       destruct (count1_parses c w d vel recs H) as [Hc Hcnl].
       pose proof (lines_good c w d vel recs H recs (ro_recs _ _ _ _ _ H)) as Hl.
       pose proof (atoms_good c w d vel recs H recs (ro_recs _ _ _ _ _ H)) as Ha.
@@ -294,7 +293,7 @@ Proof.
       rewrite Hshape in Hr. rewrite El in Hl, Ha.
       unfold read_gro in Hr.
       rewrite (load_head (title_of c) (count1 c (length recs)) (line_of w d r0) (lines_of w d rest) tl
-                 (Z.of_nat (length recs)) (w, vel) (line_len w vel) Hne Hnl Hcnl Hc Hl
+                 (Z.of_nat (length recs)) (w, vel) (line_len w vel) Hnl Hcnl Hc Hl
                  (first_line_fmt c w d vel recs H r0 rest E)) in Hr.
       destruct (load_tail _ _ _ _ _ _ _ _ _) as [st|e] eqn:Elt; cbn [bind] in Hr; [|discriminate].
       apply load_tail_fields in Elt as (Hf1 & Hf2 & Hf3).
